@@ -68,7 +68,7 @@ def run(res, rng, tier, model_ok, replay=None):
         exp = replay.get("expected")
         cases.append({"line": line, "expect": exp if isinstance(exp, str) and exp.startswith("tt=") else None})
     else:
-        nbodies = 30 if tier == "quick" else 300
+        nbodies = 30 if tier == "quick" else 90
         for b in range(nbodies):
             sigs, steps, imp = ld_history(rng, max_steps=rng.choice([3, 6, 12, 25]))
             ws = rng.choice(["lf", "crlf", "mixed"])
@@ -78,11 +78,11 @@ def run(res, rng, tier, model_ok, replay=None):
             table, out = gen.expected_obs(sigs, steps, imp)
             exp = gen.obs_string(table, out, idx)
             sarg = gen.sigs_arg(sigs, kind, idx, nuniq, idents)
-            maxpad = min(len(base), 60 if tier == "quick" else 200)
+            maxpad = min(len(base), 60 if tier == "quick" else 120)
             for lead in range(0, maxpad + 1, 1):
-                for trail in ([0, 1] if tier == "quick" else [0, 1, 2, 3]):
+                for trail in ([0, 1] if tier == "quick" else [0, 1, 3]):
                     body = base[:1] + b"\n" * lead + base[1:] + b"\n" * trail
-                    for threads in ([2, 3, 5] if tier == "quick" else [1, 2, 3, 4, 5, 6, 16]):
+                    for threads in ([2, 3, 4, 5, 7, 16] if tier != "quick" else [2, 3, 5]):
                         # uniform chunks of roughly len/threads: choose min_chunk so that exactly `threads` chunks form
                         min_chunk = max(1, len(body) // threads - rng.choice([0, 0, 1, 3]))
                         ok, n = chunks_ok(body, threads, min_chunk)
